@@ -150,16 +150,34 @@ def rel_class(mn, mx, k) -> str:
 # --------------------------------------------------------------------------------------------
 # building models through the public constructors
 
-DEFAULT_NAMES = ['F%d' % i for i in range(64)]
+DEFAULT_NAMES = ['F%d' % i for i in range(256)]
 
 
-def build(shape, cards, names=None, abstract=None, ctcs=None, types=None, fcards=None) -> FeatureModel:
-    """cards: list of (min, max) per relation; names: list per feature (preorder)."""
+def build_mode(shape, cards) -> int:
+    """Which of the three public construction orders build() uses for this instance: a function of the instance
+    alone (so a replay builds the same way); with symbolic cardinalities a function of the shape alone."""
+    k = n_features(shape) + len(cards)
+    if all(type(x) is int for c in cards for x in c):
+        k += sum(3 * a + b for a, b in cards)
+    return k % 3
+
+
+def build(shape, cards, names=None, abstract=None, ctcs=None, types=None, fcards=None, mode=None) -> FeatureModel:
+    """cards: list of (min, max) per relation; names: list per feature (preorder).
+    The model is put together through the public API in one of three orders that yield the same well-formed model:
+    0  Relation(parent, children, min, max) + parent.add_relation(rel)                  (what most readers do)
+    1  Relation(parent, [], min, max); rel.add_child(c) for each child; parent.add_relation(rel)
+    2  children created with Feature(name, parent=p); the relation appended to p.get_relations()   (XML-reader style)"""
     names = DEFAULT_NAMES if names is None else names
     n = n_features(shape)
+    mode = build_mode(shape, cards) if mode is None else mode
+    par = parents_of(shape)
     feats = []
     for i in range(n):
-        f = Feature(names[i])
+        if mode == 2 and par[i] is not None:
+            f = Feature(names[i], parent=feats[par[i]])
+        else:
+            f = Feature(names[i])
         if abstract is not None:
             f.is_abstract = abstract[i]          # assigned, not branched on: a symbolic flag must not fork the build
         if types is not None and types[i] is not None:
@@ -169,7 +187,15 @@ def build(shape, cards, names=None, abstract=None, ctcs=None, types=None, fcards
         feats.append(f)
     for ri, (p, cs) in enumerate(relations_of(shape)):
         mn, mx = cards[ri]
-        feats[p].add_relation(Relation(feats[p], [feats[c] for c in cs], mn, mx))
+        if mode == 1:
+            rel = Relation(feats[p], [], mn, mx)
+            for c in cs:
+                rel.add_child(feats[c])
+            feats[p].add_relation(rel)
+        elif mode == 2:
+            feats[p].get_relations().append(Relation(feats[p], [feats[c] for c in cs], mn, mx))
+        else:
+            feats[p].add_relation(Relation(feats[p], [feats[c] for c in cs], mn, mx))
     return FeatureModel(feats[0], list(ctcs) if ctcs else [])
 
 
@@ -212,6 +238,17 @@ def mk(tree) -> Node:
     if len(tree) == 2:
         return Node(op, mk(tree[1]))
     return Node(op, mk(tree[1]), mk(tree[2]))
+
+
+def ctc_names(k, salt, unique='c%d'):
+    """names for k constraints: a constraint's name need not be unique (hand-built models), so besides distinct names
+    the same name for all and the empty name are used; which, is a function of the instance (k, salt) alone."""
+    mode = (k + salt) % 3
+    if mode == 1:
+        return ['ctc'] * k
+    if mode == 2:
+        return [''] * k
+    return [unique % i for i in range(k)]
 
 
 def ctc(name, tree) -> Constraint:
